@@ -5,6 +5,7 @@ import pickle
 import atexit
 from pathlib import Path
 from .utils import get_logger
+from . import _verif
 
 logger = get_logger(__name__.split("bldfm.")[-1])
 
@@ -38,6 +39,7 @@ class FFTManager:
 
         # Register cleanup on exit
         atexit.register(self._cleanup)
+        _verif.emit("mgr_create", threads=num_threads, fftw=pyfftw.config.NUM_THREADS)
 
         logger.info(
             f"FFTManager initialized with {num_threads} threads, cache keepalive {cache_keepalive}s"
@@ -143,6 +145,7 @@ def reset_fft_manager():
     """Reset FFTManager singleton (call in forked worker processes)."""
     global _fft_manager
     _fft_manager = None
+    _verif.emit("mgr_reset")
 
 
 def fft2(input_data, norm="backward"):
